@@ -403,6 +403,12 @@ class ModuleEnv:
                 bind[n] = coerce(bind[n], psorts[n])
         if recv is not None:
             bind['self'] = recv
+        gh = eng.c.get('call_ghosts', {}).get(key, {})
+        for gname, gsort in c.get('ghost_params', {}).items():
+            if gname in gh:
+                bind[gname] = coerce(eng.spec_value(gh[gname], st), parse_sort(gsort))
+            else:
+                bind[gname] = fresh_value(parse_sort(gsort), gname)     # unconstrained: requires must hold for it
         env = dict(bind)
         env.update({k: v for k, v in st.env.items() if k.startswith('$g_')})
         sub = State()
